@@ -456,6 +456,10 @@ class C07(Property):
         if problems:
             raise InfraError('py2lean_prepass self-test: ' + '; '.join(problems[:3]))
         self.stats['prepass_selftest_comparisons'] = n_pp
+        # reference TEXTS: the Lean Appendix-B parser (Spec.rfcParse) against the oracle's regex, and the model's
+        # `URL(text)` (Model.refOfText / URL.ofText) against the real URL(text), on every small reference text
+        # and a list of texts with repeated / misplaced delimiters
+        out = self.parse_family(d)
         # the oracle itself against the RFC's own table of examples (section 5.4), kept in the corpus
         for c in self.corpus():
             if 'rfc_expect' in c:
@@ -463,7 +467,58 @@ class C07(Property):
                 if got != c['rfc_expect']:
                     raise InfraError('oracle disagrees with RFC 3986 5.4: %r -> %r, RFC says %r' % (
                         compose(c['refs'][0]), got, c['rfc_expect']))
-        return []
+        return out
+
+    TRICKY_TEXTS = ['', '?', '#', '?#', '#?', '??', '##', 'a?b?c', 'a#b#c', 'a#b?c', 'a?b#c?d#e', '?a#', '/?#', '/.?.#.',
+                    'a/b?c/d#e/f', '?k=1&k=2#s', '?;', '?&#', './a:b', 'a/b:c', ':', 'a:', 'a:b', ':a', '/:a', '?a:b',
+                    '#a:b', '//h/p', '//h', '//', '///p', '/p//q', 'http://u@h:1/p?q#f', 'urn:x/y?z', 'x-y.z:a#b',
+                    'a b', 'g;x=1/./y', '..', '.', '../', '/..', 'a//b', '?y=1;z=2', '1:2', '+:x', 'a+b:c']
+
+    def parse_family(self, driver):
+        from boltons.urlutils import URL
+        from bv.common import InfraError
+        texts = list(self.TRICKY_TEXTS)
+        for path in sorted(set(self.exhaustive_refs(3, SEGS_SMALL))):
+            for q in QUERIES + ['k=1&k=2', 'a=1;b']:
+                for f in FRAGS + ['x?y#z']:
+                    texts.append(compose(compact({'path': path, 'query': q, 'frag': f})))
+        texts = sorted(set(texts))
+        outs = driver.query(['parse ' + hx(t) for t in texts])
+
+        def o(x):
+            return 'N' if x is None else hx(x)
+        bad = []
+        n_rel = 0
+        for t, out in zip(texts, outs):
+            comps, _, obj = out.partition(' ')
+            sc, au, pa, qu, fr = rfc_parse(t)
+            want = ','.join([o(sc), o(au), hx(pa), o(qu), o(fr)])
+            if comps != want:
+                raise InfraError('Spec.rfcParse and the oracle regex disagree on %r: %s vs %s' % (t, comps, want))
+            if sc is not None or au is not None:
+                if obj != '-':
+                    raise InfraError('driver parsed %r as a relative reference' % t)
+                continue
+            c = {'path': pa, 'query': qu, 'frag': fr}
+            if not in_model_domain(c):
+                continue
+            n_rel += 1
+            try:
+                with time_limit(10):
+                    u = self.dump(URL(t))
+                got = 'C' + '|'.join([u['scheme'] or '', u['user'] or '', u['pw'] or '', str(u['port'] or 0), u['path'],
+                                      u['query'], u['frag']])
+                if u['host']:
+                    got = 'T' + u['text']
+            except Exception as e:       # noqa: BLE001
+                got = 'X' + exc_name(e)
+            if got != obj:
+                f = Failure('parse_mismatch', 'URL(%r) has components %s, the model (refOfText: fragment from the first '
+                            '#, query from the first ? before it) says %s' % (t, got, obj))
+                bad.append(({'base': BASES[0], 'refs': [compact(c)], 'as_url': 0}, f))
+        self.stats['reference_texts_parsed'] = len(texts)
+        self.stats['reference_texts_relative_in_domain'] = n_rel
+        return bad[:1]
 
     # ------------------------------------------------------------------ generation
     def exhaustive_refs(self, maxlen, segs):
